@@ -44,11 +44,23 @@ func (ex *Executable) String() string {
 
 // Validate an executable.
 func (ex *Executable) Validate(root *Root) (errs []error) {
-	for _, op := range ex.Ops {
-		errs = append(errs, op.Validate(root)...)
+	// By name so the errors come in the same order every time, the order of
+	// a map is not stable.
+	names := make([]string, 0, len(ex.Ops))
+	for name := range ex.Ops {
+		names = append(names, name)
 	}
-	for _, f := range ex.Fragments {
-		errs = append(errs, f.Validate(root)...)
+	sort.Strings(names)
+	for _, name := range names {
+		errs = append(errs, ex.Ops[name].Validate(root)...)
+	}
+	names = names[:0]
+	for name := range ex.Fragments {
+		names = append(names, name)
+	}
+	sort.Strings(names)
+	for _, name := range names {
+		errs = append(errs, ex.Fragments[name].Validate(root)...)
 	}
 	errs = append(errs, ex.validateFragmentCycles()...)
 	return
@@ -114,8 +126,13 @@ func (ex *Executable) SetContextRecursive(ctx interface{}) {
 }
 
 func (ex *Executable) write(buf *bytes.Buffer) {
-	for _, op := range ex.Ops {
-		op.write(buf)
+	names := make([]string, 0, len(ex.Ops))
+	for name := range ex.Ops {
+		names = append(names, name)
+	}
+	sort.Strings(names)
+	for _, name := range names {
+		ex.Ops[name].write(buf)
 	}
 	if 0 < len(ex.Fragments) {
 		keys := make([]string, 0, len(ex.Fragments))
